@@ -10,6 +10,7 @@ import os
 import random
 import re
 import struct
+from decimal import Decimal, getcontext
 from fractions import Fraction
 
 import core
@@ -68,7 +69,10 @@ def gen_rho(rng):
 
 
 def gen(tier, rng):
-    n_comp, n_jax, n_kernel = (420, 120, 60) if tier == 'quick' else (6000, 1500, 600)
+    # 'tie' cases are compared with the Coq model (interval goals, ~0.1 s each); all cases go through the
+    # oracle on the real code
+    n_comp, n_jax, n_kernel = (200, 50, 30) if tier == 'quick' else (4000, 1000, 500)
+    n_comp_o, n_jax_o = (1500, 200) if tier == 'quick' else (20000, 2000)
     maxw = 6 if tier == 'quick' else 10
     cases = []
     # every flag combination x a few shapes first (structured), then random
@@ -89,11 +93,23 @@ def gen(tier, rng):
         cases.append({'kind': 'comp', 'G': [gen_row(rng, w, mode) for _ in range(v)], 'rho': gen_rho(rng),
                       'upper': up, 'minimum': rng.random() < 0.5, 'lower_flag': rng.random() < 0.4,
                       'mode': mode})
-    for _ in range(n_jax):
+    for k in range(n_comp_o):
+        v = rng.choice([1, 1, 2, 3, 4])
+        w = rng.randint(1, 12)
+        mode = rng.choice(MODES)
+        up = 0.0 if rng.random() < 0.4 else (rng.choice([1.0, -2.5, 0.125, 100.0, -1e3]) if rng.random() < 0.5
+                                             else rng.uniform(-50, 50))
+        cases.append({'kind': 'comp', 'G': [gen_row(rng, w, mode) for _ in range(v)], 'rho': gen_rho(rng),
+                      'upper': up, 'minimum': rng.random() < 0.5, 'lower_flag': rng.random() < 0.4,
+                      'mode': mode, 'oracle_only': True})
+    for k in range(n_jax + n_jax_o):
         n = rng.choice([1, 2, 3, 5, 8])
         mode = rng.choice(MODES)
-        cases.append({'kind': 'jax', 'fn': rng.choice(['ks_max', 'ks_min']), 'x': gen_row(rng, n, mode),
-                      'rho': gen_rho(rng), 'mode': mode})
+        c = {'kind': 'jax', 'fn': rng.choice(['ks_max', 'ks_min']), 'x': gen_row(rng, n, mode),
+             'rho': gen_rho(rng), 'mode': mode}
+        if k >= n_jax:
+            c['oracle_only'] = True
+        cases.append(c)
     for _ in range(n_kernel):
         v, w = rng.choice([1, 2]), rng.randint(1, maxw)
         mode = rng.choice(MODES)
@@ -103,6 +119,14 @@ def gen(tier, rng):
 
 
 # ------------------------------------------------------------------ Coq emission
+
+getcontext().prec = 40
+
+
+def dec(fr):
+    fr = Fraction(fr)
+    return Decimal(fr.numerator) / Decimal(fr.denominator)
+
 
 def fq(x):
     fr = Fraction(x)
@@ -147,20 +171,33 @@ def lemma_for(idx, case, res):
         width = len(G[0])
         for r, row in enumerate(G):
             con = [s * (Fraction(x) - up) for x in row]
-            m = lit(max(con))
+            mx = max(con)
+            m = lit(mx)
             o = rq(res['out'][r])
             args = '%s %s %s %s %s' % (boolc(mn), boolc(lw), fq(up), fq(rho), rlist(row))
+            # one enclosure of the shifted sum, shared by the goals of this row
+            S = 'S%d' % r
+            sref = sum((dec(rho) * dec(x - mx)).exp() for x in con)
+            slo = Fraction(sref) * (1 - Fraction(1, 10**12))
+            shi = Fraction(sref) * (1 + Fraction(1, 10**12))
+            out.append('  pose (%s := sumR (exponents %s %s (con_val %s %s %s %s))).\n'
+                       % (S, fq(rho), m, boolc(mn), boolc(lw), fq(up), rlist(row)))
+            out.append('  first [ assert (H%s : %s <= %s <= %s) by (ks_sum_bounds %s)'
+                       ' | idtac "BADGOAL %d s%d"; assert (H%s : True) by exact I ].\n'
+                       % (S, lit(slo), S, lit(shi), S, idx, r, S))
+            side = '(try discriminate; q_nonzero)'
             goal = 'Rabs (kscomp_out %s - %s) <= %s' % (args, lit(o), lit(tolof(o)))
-            tac = ('rewrite (kscomp_out_shift _ _ _ _ _ %s) by (try discriminate; q_nonzero); ks_close' % m)
+            tac = ('rewrite (kscomp_out_shiftS _ _ _ _ _ %s %s eq_refl) by %s; ks_closeS %s' % (m, S, side, S))
             out.append(step(goal, tac, '%d v%d' % (idx, r)))
             n_goals += 1
             for j in range(width):
                 pj = rq(res['J'][r][r * width + j])
                 goal = 'Rabs (nth %d (kscomp_partials %s) 0 - %s) <= %s' % (j, args, lit(pj), lit(tolof(pj)))
-                tac = ('rewrite (kscomp_partials_shift _ _ _ _ _ %s) by (try discriminate; q_nonzero); ks_close'
-                       % m)
+                tac = ('rewrite (kscomp_partials_shiftS _ _ _ _ _ %s %s eq_refl) by %s; ks_closeS %s'
+                       % (m, S, side, S))
                 out.append(step(goal, tac, '%d p%d_%d' % (idx, r, j)))
                 n_goals += 1
+            out.append('  clear H%s; clear %s.\n' % (S, S))
     elif case['kind'] == 'kernel':
         rho = Fraction(case['rho'])
         for r, row in enumerate(case['G']):
@@ -199,7 +236,7 @@ def lemma_for(idx, case, res):
     return ''.join(out), n_goals
 
 
-def run_goal_files(wd, items, per_file=60):
+def run_goal_files(wd, items, per_file=170):
     """items: list of (idx, lemma_text, n_goals).  Returns (ok_tags, bad_tags, errors, n_files)."""
     files, cur, cnt = [], [], 0
     for idx, text, n in items:
@@ -251,7 +288,7 @@ def check_cases(v, wd, cases, results, tag='tie'):
         v.cov['broken_detail'] = plog[-2000:]
     for i, (c, r) in enumerate(zip(cases, results)):
         res = r.get('res')
-        if res in (None, '__none__'):
+        if res in (None, '__none__') or c.get('oracle_only'):
             continue
         if c['kind'] == 'jax' and res.get('val') is None:
             bad_cases.add(i)
@@ -268,7 +305,7 @@ def check_cases(v, wd, cases, results, tag='tie'):
         text, n = lemma_for(i, c, res)
         items.append((i, text, n))
         total += n
-    ok, bad, errors, nfiles = run_goal_files(wd, items)
+    ok, bad, errors, nfiles = run_goal_files(wd, items, per_file=max(60, total // (2 * core.NCPU) + 1))
     for t in bad:
         bad_cases.add(int(t.split()[0]))
     missing = total - len(ok) - len(bad)
